@@ -145,7 +145,10 @@ func runChaosProp(r *Run, prop string, tune func(o *chaosOpts, g *Rng)) {
 }
 
 func runC01(r *Run) {
-	runChaosProp(r, "C01", func(o *chaosOpts, g *Rng) { o.WriteHeavy = true })
+	runChaosProp(r, "C01", func(o *chaosOpts, g *Rng) {
+		o.WriteHeavy = true
+		o.Swap = g.Chance(35)
+	})
 }
 
 func runC03(r *Run) {
@@ -162,6 +165,8 @@ func runC04(r *Run) {
 		o.WriteHeavy = true
 		o.Yields = true
 		o.TriggerFence = true
+		o.FencePressure = true
+		o.Faults = g.Range(3, 8)
 		o.Clients = g.Range(3, 6)
 		o.CoordCrash = true // a restarted coordinator re-elects over a healthy, busy leader
 		o.NetLoss = false
@@ -174,6 +179,7 @@ func runC05(r *Run) {
 		o.Faults = g.Range(3, 10)
 		o.CoordCrash = true
 		o.MetaFail = g.Chance(60)
+		o.Swap = g.Chance(60)
 	})
 }
 
